@@ -29,7 +29,36 @@ def bind_repo():
     if got != REPO:
         print("HARNESS-ERROR jsonrpclib imported from %s, expected %s" % (got, REPO))
         sys.exit(2)
-    logging.disable(logging.CRITICAL)
+    setup_logging()
+    # a warning attributed to library code (deprecated API use, ...) is raised as an error, as under `python -W error`:
+    # the properties hold whatever the warning filter is, and this is the filter under which a warning changes behaviour
+    import warnings
+    warnings.filterwarnings("error", module=r"jsonrpclib(\..*)?$")
+
+
+class _FormatAndDiscard(logging.Handler):
+    """Formats every record (so that the arguments of every logging call are really rendered) and drops the text."""
+
+    def emit(self, record):
+        try:
+            self.format(record)
+        except Exception:
+            pass  # a record that cannot be rendered is logging's business (Handler.handleError), not a property verdict
+
+
+def setup_logging():
+    """The properties do not depend on the logging configuration, so every run uses the configuration under which most
+    library code executes: all loggers enabled at DEBUG, records rendered and discarded (VERIF_LOGGING=off restores silence)."""
+    if os.environ.get("VERIF_LOGGING", "debug") == "off":
+        logging.disable(logging.CRITICAL)
+        return
+    logging.raiseExceptions = False
+    logging.lastResort = None
+    root = logging.getLogger()
+    for h in list(root.handlers):
+        root.removeHandler(h)
+    root.addHandler(_FormatAndDiscard())
+    root.setLevel(logging.DEBUG)
 
 
 def main(argv=None):
